@@ -1,6 +1,7 @@
 package main
 
 import (
+	"path/filepath"
 	"bytes"
 	"encoding/json"
 	"fmt"
@@ -259,6 +260,60 @@ func runC16(c *ctx, r *Report) error {
 		}
 	}
 
+	// (2b) several files in one call (LintFiles has its own printing code per mode): what is printed is what is returned
+	{
+		dir, err := os.MkdirTemp("", "c16files")
+		if err != nil {
+			return err
+		}
+		defer os.RemoveAll(dir)
+		var paths []string
+		for i := 0; i < 3; i++ {
+			p := filepath.Join(dir, fmt.Sprintf("w%d.yml", i))
+			os.WriteFile(p, []byte(fmt.Sprintf("on: push\njobs:\n  j%d:\n    runs-on: no-such-label-%d\n    steps:\n      - run: echo ${{ nosuch.ctx%d }}\n", i, i, i)), 0o644)
+			paths = append(paths, p)
+		}
+		for _, mode := range []struct {
+			name    string
+			oneline bool
+			format  string
+		}{{"default", false, ""}, {"oneline", true, ""}, {"json", false, "{{json .}}"}} {
+			var out bytes.Buffer
+			l, err := actionlint.NewLinter(&out, &actionlint.LinterOptions{Oneline: mode.oneline, Format: mode.format, Shellcheck: "", Pyflakes: "", Color: actionlint.ColorOptionKindNever})
+			if err != nil {
+				return err
+			}
+			var errs []*actionlint.Error
+			var lerr error
+			pm, _ := guarded(20e9, func() { errs, lerr = l.LintFiles(paths, nil) })
+			r.Evaluations++
+			cs := Case{Op: "lintfiles-render", Input: map[string]string{"mode": mode.name, "files": "3 files with 2 diagnostics each"}, Note: truncate(out.String(), 600)}
+			if pm != "" {
+				r.Crashes = append(r.Crashes, cs)
+				continue
+			}
+			if lerr != nil {
+				return lerr
+			}
+			printed := 0
+			if mode.format != "" {
+				var js []map[string]interface{}
+				if json.Unmarshal(out.Bytes(), &js) == nil {
+					printed = len(js)
+				}
+			} else {
+				for _, ln := range strings.Split(out.String(), "\n") {
+					if strings.Contains(ln, ".yml:") && strings.HasSuffix(strings.TrimSpace(ln), "]") {
+						printed++
+					}
+				}
+			}
+			r.nontrivial("lintfiles-render:" + mode.name)
+			if printed != len(errs) || len(errs) != 6 {
+				r.finding("printed-differs-from-returned", fmt.Sprintf("LintFiles in %s mode printed %d diagnostics and returned %d (6 expected)", mode.name, printed, len(errs)), cs)
+			}
+		}
+	}
 	// (3) snippet renderer
 	srcAlpha := []string{"a", "b", " ", "\n", "\r\n", "\r", "\u0085", "\u2028", "\t", "é", "日本", "x", "\xff", "\n\n", "한", "ｆ", "語 "}
 	for i := 0; i < nSnip; i++ {
